@@ -14,7 +14,8 @@ abbrev Str := List Nat
 /-- Errors are values.  The kinds Python's partial primitives raise. -/
 inductive PyErr where
   | valueError | typeError | indexError | keyError | attributeError
-  | unicodeError | memoryError | oracleMiss
+  | unicodeError | memoryError
+  | oracleMiss (fn : String) (arg : Str)   -- the driver has no table entry for an external function
   deriving Repr, DecidableEq, BEq, Inhabited
 
 def PyStr (s : Str) : Prop := ∀ c ∈ s, c ≤ 0x10FFFF
